@@ -5,7 +5,9 @@
 // document in a file or in CFG_CONFIG_B64, environment variable, argv); the monitor never parses.
 // After Parse returned nil every field must hold the value of the highest-priority source that
 // mentions it (an empty text in tag/env/cli means the zero value). Struct types are made at run
-// time with reflect.StructOf; the sources are really set (os.Setenv, files, argv).
+// time with reflect.StructOf; the sources are really set (os.Setenv, files, argv). The struct value
+// may have a history (garbage pre-filled by the caller, an earlier NewFlagSet+Parse round = reload):
+// the expected values never depend on it.
 // The environment is process-global: one sequential loop per child process. See DESIGN.md §3 C09.
 package main
 
@@ -24,7 +26,7 @@ type mon struct{}
 func (mon) Name() string { return "cfgprio" }
 
 func (mon) Level(string) (string, string) {
-	return "exploration", "exhaustive lattice 9 field types x 16 source masks {tag default, JSON, env, cli} x {top-level, nested, doubly nested} x {comma, pipe tag syntax} x carriers {-config absolute, ~/ with HOME redirected, relative, CFG_CONFIG_B64, both (file wins), none} x legal cli spellings x value schemes (every pool value - zero, one, extremes, awkward strings, byte slices - in every source position, plus an empty text per textual source over non-zero lower sources), each with a sibling field mentioned by exactly the complementary sources; plus seeded random structs of 1..12 fields with independent masks; distinct_nontrivial = distinct structural signatures (carrier, path kind, decoy; per field type, mask, depth, tag syntax, cli spelling, which sources are empty/zero) of cases in which at least one winning source says something else than the next lower source"
+	return "exploration", "exhaustive lattice 9 field types x 16 source masks {tag default, JSON, env, cli} x {top-level, nested, doubly nested} x {comma, pipe tag syntax} x carriers {-config absolute, ~/ with HOME redirected, relative, CFG_CONFIG_B64, both (file wins), none} x legal cli spellings x value schemes (every pool value - zero, one, extremes, awkward strings, byte slices - in every source position, plus an empty text per textual source over non-zero lower sources), each with a sibling field mentioned by exactly the complementary sources; plus a history lattice in which the struct value handed to NewFlagSet is not fresh - per type x mask x nesting x tag syntax (a) every leaf pre-filled with non-zero garbage of its type (also a random quarter of all other cases), (b) reload: an earlier NewFlagSet+Parse round on the same struct value in which the field was mentioned by each of the 8 subsets of {JSON, env, cli} with other values, then the round under test, judged by its own sources only (the model never looks at the prior content); plus seeded random structs of 1..12 fields with independent masks, a quarter of them pre-filled and a quarter after an earlier random round; distinct_nontrivial = distinct structural signatures (carrier, path kind, decoy; per field type, mask, depth, tag syntax, cli spelling, which sources are empty/zero) of cases in which at least one winning source says something else than the next lower source"
 }
 
 func (mon) Assumptions(string) []string {
@@ -34,6 +36,7 @@ func (mon) Assumptions(string) []string {
 		"environment names are taken from a hand-written table of plain CamelCase identifiers (CFG_ + group path + field, upper snake case)",
 		"an environment variable such as CFG_CONFIG naming a file is not a source of the configuration path (the statement names -config and CFG_CONFIG_B64 only)",
 		"JSON null, unknown JSON keys and case-folded key matching are not generated",
+		"a struct that is not zero when handed to NewFlagSet (pre-filled, or parsed before) must end up exactly as a fresh one would: unmentioned fields hold the tag default, an empty/missing default being the zero value",
 	}
 }
 
@@ -149,7 +152,8 @@ func (mon) Finish(prop, tier string, mg *drv.Merged) (inconclusive []string) {
 		if n := len(mg.Sets["type_mask_cells"]); n != nTypes*16 {
 			inconclusive = append(inconclusive, fmt.Sprintf("only %d of %d type x mask cells were observed", n, nTypes*16))
 		}
-		for _, w := range []string{"winner_cli", "winner_env", "winner_json", "winner_default", "winner_none", "winner_is_empty_text"} {
+		for _, w := range []string{"winner_cli", "winner_env", "winner_json", "winner_default", "winner_none", "winner_is_empty_text",
+			"history_prefilled_cases", "history_reload_cases", "history_fields_prestate_differs", "history_fields_prestate_differs_want_zero_by_omission"} {
 			if mg.Sum[w] == 0 {
 				inconclusive = append(inconclusive, "no field observed with "+w)
 			}
